@@ -282,6 +282,10 @@ func (q *qgen) expr(d int) string {
 	case 6:
 		return q.kw("not") + " " + q.expr(d)
 	case 7, 8:
+		if q.g.Intn(15) == 0 {
+			// an unrecognised operator in front of a real one (the scanner returns the token code Uncategorized)
+			return q.expr(d) + " " + q.pick("!!", "=!", "=>", "|||", "<<", "<=>") + " " + q.pick("+", "-", "*", "/", "%") + " " + q.expr(d)
+		}
 		return q.expr(d) + q.osp() + q.pick("+", "-", "*", "/", "%") + q.osp() + q.expr(d)
 	case 9, 10:
 		return q.expr(d) + q.osp() + q.pick("=", "==", "<", ">", "<=", ">=", "<>", "!=") + q.osp() + q.expr(d)
